@@ -30,6 +30,7 @@ def run(repo, tier):
     r.assumptions = ["formulas P = 2^(p-1)+1, Q = 2^(p-1) (Graillat, Muller hal-04624238) are the correct ones"]
     r.rule("R11.1", "P/Q constants equal 2^(p-1)+1 / 2^(p-1) (resp. 2^(p-2)+1 / 2^(p-2)) at every definition site and in the docstrings", floor=12)
     r.rule("R11.2", "next(): the multiplier constant is 1 - 2^-p with p the precision of the dtype", floor=1)
+    r.rule("R11.3", "the emulated FMA variants call two_prod with fix_overflow, and that guard is the sign-symmetric |xh*yh| > largest fallback", floor=2)
 
     want = {"Q": lambda p: 2 ** (p - 1), "P": lambda p: 2 ** (p - 1) + 1}
     want13 = {"Q": lambda p: 2 ** (p - 2), "P": lambda p: 2 ** (p - 2) + 1}
@@ -133,6 +134,21 @@ def run(repo, tier):
             if isinstance(n, ast.If) and norm_src(n.test) == "invert":
                 inv_guard = any(isinstance(x, ast.Return) and ("!=" in norm_src(x.value) or ".ne(" in norm_src(x.value)) for x in n.body)
         r.ob("R11.1", f"{REL}::{fname} result D == x (D != x iff invert)", ok and inv_guard, f"returns {texts}", loc(REL, g))
+
+    # ---- R11.3 overflow guard behind the fma variants
+    from rules.C10 import check_mul_dekker_overflow, RefRepo
+    from sa.kernels import Extractor
+    check_mul_dekker_overflow(r, repo, Extractor(repo), Extractor(RefRepo()), "R11.3")
+    n_fma = 0
+    for rel2 in ("apmath.py", "apmath_algorithms.py"):
+        for c in [c for c in ast.walk(repo.tree(rel2)) if isinstance(c, ast.Call) and (call_name(c) or "").endswith("two_prod")]:
+            kws = {kw.arg: norm_src(kw.value) for kw in c.keywords}
+            if "fix_overflow" in kws:
+                n_fma += 1
+                r.ob("R11.3", f"{rel2} two_prod(..., fix_overflow={kws['fix_overflow']})", kws["fix_overflow"] in ("fix_overflow", "True"),
+                     f"two_prod is called with fix_overflow={kws['fix_overflow']}", loc(rel2, c))
+    if n_fma == 0:
+        raise AnalysisError("no two_prod(..., fix_overflow=...) call found in the fma implementations")
 
     # ---- R11.2 next()
     nx = repo.func(REL, "next")
